@@ -515,6 +515,30 @@ class Order:
                 local_defs = {d.name: d for d in ast.walk(self.fi.node) if isinstance(d, ast.FunctionDef) and d is not self.fi.node} if getattr(self, "fi", None) is not None else {}
                 called = {n.func.id for x in h.body for n in ast.walk(x) if isinstance(n, ast.Call) and isinstance(n.func, ast.Name)}
                 removes = any(nm in local_defs and self._removes(local_defs[nm].body) for nm in called)
+                if not removes and getattr(self, "fi", None) is not None:
+                    # ... or a local lambda (`give_up = (lambda: None) if existed else (lambda: graph.remove_node(n))`)
+                    for a_ in ast.walk(self.fi.node):
+                        if isinstance(a_, ast.Assign) and any(isinstance(t_, ast.Name) and t_.id in called for t_ in a_.targets):
+                            if any(isinstance(l_, ast.Lambda) and self._removes([l_.body]) for l_ in ast.walk(a_.value)):
+                                removes = True
+                if not removes:
+                    # ... or through a private method of the class (`self._withdraw(...)`), defined in the class or stored on it by a
+                    # class decorator of the package (`cls._withdraw = _withdraw`)
+                    for x in h.body:
+                        for n in ast.walk(x):
+                            if isinstance(n, ast.Call) and isinstance(n.func, ast.Attribute) and dotted(n.func.value) == "self":
+                                m_ = self.repo.funcs.get((FILE, f"Circuit.{n.func.attr}"))
+                                if m_ is not None and self._removes(m_.node.body):
+                                    removes = True
+                                cdef_ = self.repo.classes.get((FILE, "Circuit"))
+                                for dec in (cdef_.decorator_list if m_ is None and cdef_ is not None else ()):
+                                    dfi = self.repo.func_of_callee(FILE, dec.func if isinstance(dec, ast.Call) else dec)
+                                    for a_ in (ast.walk(dfi.node) if dfi is not None else ()):
+                                        if isinstance(a_, ast.Assign) and len(a_.targets) == 1 and isinstance(a_.targets[0], ast.Attribute) and a_.targets[0].attr == n.func.attr and isinstance(a_.value, ast.Name):
+                                            f_ = self.repo.func_of_name(dfi.file, a_.value.id)
+                                            ps_ = [p_.arg for p_ in f_.node.args.posonlyargs + f_.node.args.args] if f_ is not None else []
+                                            if ps_ and self._removes(f_.node.body, recv=ps_[0]):
+                                                removes = True
                 if not removes:
                     # ... or through a helper of another module of the package that is handed this circuit (`_impl.drop_instance(self, ...)`)
                     for x in h.body:
